@@ -1,7 +1,23 @@
 """C09 - AXI port: reservation discipline, response-after-data, single driver of the shared native command, RMW merge, addresses."""
+import re
 from ..ruleutil import *
 
 AXI = "litedram.frontend.axi"
+
+
+def _preshifted(val, a):
+    """<a>[2:] - (base_address >> 2) and its spellings (>> 2, // 4 on either side)"""
+    def sh2(t, name):
+        if isinstance(t, Op) and t.op == "slice" and key(t.args[0]) == name and key(t.args[1]) == "2" and (isinstance(t.args[2], Const) and t.args[2].v is None):
+            return True
+        if isinstance(t, Op) and t.op == ">>" and key(t.args[0]) == name and key(t.args[1]) == "2":
+            return True
+        if isinstance(t, Op) and t.op == "//" and key(t.args[0]) == name and key(t.args[1]) == "4":
+            return True
+        return False
+    if isinstance(val, Op) and val.op == "-" and len(val.args) == 2:
+        return sh2(val.args[0], a) and sh2(val.args[1], "base_address")
+    return False
 
 
 def wview(ctx, rmw):
@@ -116,6 +132,15 @@ def write_path(ctx):
         gk = {lkey(x) for x in flat}
         ob1.instance("%s port.cmd.valid (regular path)" % tag, sorted(gk))
         rest = [x for x in flat if lkey(x) not in ("aw.valid", "cmd_grant")]
+        if {"aw.valid", "cmd_grant"} <= gk and len(rest) > 1:
+            # further conjuncts only hold the command back; the buffered-data condition is the one that reads the write buffer's level
+            lv_ = [x for x in rest if x[1] and any("w_buffer.level" in s_ for s_ in support(deref(v, x[0])) | support(x[0]))]
+            if len(lv_) == 1:
+                ob1.instance("%s further conditions on port.cmd.valid (they only delay the command)" % tag, sorted(lkey(x) for x in rest if x is not lv_[0]))
+                rest = lv_
+            else:
+                ob1.unknown("%s: port.cmd.valid is driven under %s: the buffered-data condition is not identified among them" % (tag, sorted(gk)))
+                continue
         if not ({"aw.valid", "cmd_grant"} <= gk) or len(rest) != 1 or not rest[0][1]:
             ob1.refute("%s:cmd-valid" % tag, "the regular write path drives port.cmd.valid under %s, expected aw.valid & <buffered-data condition> & cmd_grant" % sorted(gk), pv[0].loc)
             continue
@@ -176,7 +201,9 @@ def write_path(ctx):
             ob2.refute("%s:id-push" % tag, "the write ID is pushed under %s, expected aw.valid & aw.first & aw.ready" % (key(idp) if idp is not None else None), None)
         rid = single(v, "resp_buffer.sink.id")
         rl = [d for d in v.drivers("resp_buffer.sink.id")]
-        if not rl or key(rl[0].value) != "id_buffer.source.id":
+        if not rl:
+            ob2.unknown("%s: no response FIFO fed with an ID: the write response is produced by another structure than the one this rule reads" % tag)
+        elif key(rl[0].value) != "id_buffer.source.id":
             ob2.refute("%s:resp-id" % tag, "the response ID is not taken from the ID FIFO", None)
 
 
@@ -279,8 +306,14 @@ def shared_cmd(ctx):
         if ob4.need(len(d) == 1, "%s.cmd_grant driver not found" % side):
             grants[side] = key(d[0].value)
     ob4.instance("grants", grants)
-    if len(set(grants.values())) != len(grants) or not all("arbiter.grant" in g or "grant" in g for g in grants.values()):
-        ob4.refute("grants", "write and read paths are granted by %s: not two distinct values of one arbiter" % grants, None)
+    gv = list(grants.values())
+    if len(gv) == 2 and (gv[0] == gv[1] or any(g in ("1", "True") for g in gv)):
+        ob4.refute("grants", "write and read paths are granted by %s: both can hold the shared command channel in the same cycle" % grants, None)
+    elif len(set(gv)) != len(gv) or not all(re.fullmatch(r"\((\d+ == )?[\w.]*arbiter\.grant( == \d+)?\)|~?[\w.]*arbiter\.grant", g) for g in gv):
+        if len(gv) == 2 and (gv[0] == "~" + gv[1] or gv[1] == "~" + gv[0]):
+            pass          # one signal and its complement
+        else:
+            ob4.unknown("write and read paths are granted by %s: not two values of one round-robin arbiter's grant; whether they exclude each other is not decided" % grants)
     w = wview(ctx, True)
     r = rview(ctx, True)
     fs = w.fsms("")
@@ -300,6 +333,9 @@ def shared_cmd(ctx):
         r_ = sorted(litset(conj(cq_)) - {chan + ".valid"}) if cq_ is not None else []
         return r_[0] if len(r_) == 1 else "?"
     for v, sig in ((w, gate_of(w, "aw")), (r, gate_of(r, "ar"))):
+        if sig == "?":
+            ob4.unknown("cmd_request is not <channel>.valid & <one gate>: the gate that rmw_request has to force low is not identified")
+            continue
         z = [d for d in v.drivers(sig) if is0(d.value) and "rmw_request" in v.guard_keys(d, False)]
         nz = [d for d in v.drivers(sig) if not is0(d.value)]
         later = z and nz and all(zz.order > n.order for zz in z for n in nz)
@@ -359,7 +395,10 @@ def shared_cmd(ctx):
                 val = l.value
                 good = isinstance(val, Op) and val.op == ">>" and key(val.args[1]) == "2" and lin_eq(val.args[0], Op("-", (Sym(a), Sym("base_address"))))
                 ob6.instance("%s %s" % (side, "state " + str(l.state) if l.fsm is not None else "regular path"), key(val))
-                if not good:
+                if not good and _preshifted(val, a):
+                    ob6.unknown("%s command address is %s: both operands are shifted before the subtraction, which equals (%s - base_address) >> 2 only for a "
+                                "word-aligned base_address - not decided here" % (side, key(val), a))
+                elif not good:
                     ob6.refute("addr:%s:%s" % (side, l.state), "%s command address is %s, expected (%s - base_address) >> 2 for a 32-bit port" % (side, key(val), a), l.loc)
     if n < 4:
         ob6.unknown("only %d command address sites found" % n)
